@@ -13,7 +13,7 @@ Definition mk_sparse (len : nat) (tbl : list (nat * tentry)) (d : tentry) : spar
   {| sp_len := len; sp_tbl := tbl; sp_default := d |}.
 
 Inductive c20case :=
-| KAnm (consts : list (nat * expr)) (entries : list (list sprite_src)) (scripts : list script_src) (uses : list use)
+| KAnm (consts : list (nat * expr)) (entries : list (list sprite_src)) (scripts : list script_src) (uses : list use_src)
        (r : ires (list Z * list Z * list Z))     (* sprite ids, script numbers (i32), argument values (u32) *)
 | KEcl (names uses : list nat) (numbers : list (option Z)) (r : ires (list Z * list nat))
 | KPos (names uses : list nat) (r : ires (list Z))
